@@ -59,6 +59,7 @@ def main():
             die('%s: expected exactly one `"sync"` import line, found %d' % (rel, n))
         s = re.sub(r'^(\s*)"sync"\s*$', r'\1sync "github.com/cloudwego/gopkg/verifshim/vsync"', s, count=1, flags=re.M)
         put(os.path.join(REPO, rel), "rw_" + os.path.basename(rel), s)
+    put(os.path.join(REPO, "verifshim/vnetpoll/netpoll.go"), "vnetpoll.go")
     # 4. span allocator: atomic -> scheduling-point shim
     s = open(os.path.join(bd, "span/span.go")).read()
     if s.count('"sync/atomic"') != 1:
